@@ -59,6 +59,10 @@ def magic_rules(prog, rule):
     for gname, want, unit in (("CIF2_DEFAULT_MAGIC", want2, "ciffile.c"), ("CIF2_UTF8_MAGIC", want2, "ciffile.c"),
                               ("CIF2_MAGIC", want2, "parser.c"), ("CIF1_MAGIC", want1, "parser.c")):
         g = gl.get(gname)
+        if not g and gname == "CIF1_MAGIC":
+            # judged by C11 R3 (other-version comments select CIF 1.1): its absence is a finding there, not a lost anchor
+            rule.info("array:CIF1_MAGIC", "not present")
+            continue
         if not g:
             raise Broken("magic array %s not found" % gname)
         ints = array_ints(g)
